@@ -1,6 +1,7 @@
 import PhononModel.Lemmas.ShortestPairs
 import PhononModel.Lemmas.ShortestPairsTol
 import PhononModel.Lemmas.WindowCert
+import PhononModel.Lemmas.ShortestPairsConvert
 /-!
 # C05 — shortest-vector tables are the complete set of minimum-image vectors
 
@@ -261,6 +262,30 @@ example : isSymm (M3.one : M3 ℚ) = true ∧ isPD (M3.one : M3 ℚ) = true := b
 example : (specShortestPoints M3.one ⟨1/2, 1/2, 1/2⟩).length = 8 := by decide +kernel
 example : (pairShortest M3.one ⟨1/2, 1/2, 1/2⟩ window65).length = 8 := by decide +kernel
 
+/-! ### conversion of ARBITRARY tables (`dense_to_sparse_svecs`, `sparse_to_dense_svecs` in cells.py) -/
+
+/-- **dense → sparse reads through the address column.**  For every dense table with at most 27 vectors per
+pair and address ranges inside the vector array — blocks in any storage order, multiplicity rows
+sub-selected or permuted — the sparse table holds, for every pair, exactly the vectors the dense one
+addresses (same order). -/
+theorem dense_to_sparse_any_table (d : Dense) (hd : d.wf) (k : ℕ) : (denseToSparse d).read k = d.read k :=
+  denseToSparse_read d hd k
+
+/-- **sparse → dense** keeps, for every pair, the first `count` slots. -/
+theorem sparse_to_dense_any_table (s : Sparse) (hs : s.wf) (k : ℕ) : (sparseToDense s).read k = s.read k :=
+  sparseToDense_read s hs k
+
+/-- round trip of an arbitrary well-formed dense table through the sparse format: the same sets, pair by pair. -/
+theorem dense_sparse_roundtrip_any_table (d : Dense) (hd : d.wf) (k : ℕ) :
+    (sparseToDense (denseToSparse d)).read k = d.read k :=
+  sparseToDense_denseToSparse_read d hd k
+
+/-- the hypothesis is met by a table whose blocks are stored in reverse order -/
+example : ({ svecs := [⟨1, 0, 0⟩, ⟨0, 1, 0⟩, ⟨0, 0, 1⟩], multi := [(1, 2), (2, 0)] } : Dense).wf := by
+  intro p hp
+  simp only [List.mem_cons, List.not_mem_nil, or_false] at hp
+  rcases hp with rfl | rfl <;> simp
+
 end PhononModel.C05
 
 #print axioms PhononModel.C05.gram_checks_sound
@@ -283,3 +308,6 @@ end PhononModel.C05
 #print axioms PhononModel.C05.dense_multiplicity_addresses
 #print axioms PhononModel.C05.dense_sparse_same
 #print axioms PhononModel.C05.sparse_rejects_overflow
+#print axioms PhononModel.C05.dense_to_sparse_any_table
+#print axioms PhononModel.C05.sparse_to_dense_any_table
+#print axioms PhononModel.C05.dense_sparse_roundtrip_any_table
